@@ -36,6 +36,7 @@ const (
 
 var opNames = [...]string{"start", "lock", "rlock", "atomic", "send", "recv", "select", "yield", "wait", "io", "go", "choice", "timer", "unlock", "quiesce"}
 
+//go:norace
 func (k OpKind) String() string { return opNames[k] }
 
 type Thread struct {
@@ -74,6 +75,7 @@ const (
 	TermStopped            // body asked to stop
 )
 
+//go:norace
 func (t Terminal) String() string {
 	return [...]string{"all-done", "quiescent", "livelock", "horizon", "panic", "stopped"}[t]
 }
@@ -132,12 +134,14 @@ type killSentinel struct{}
 var neverFire = 50 * 365 * 24 * time.Hour
 
 // NewSched creates a scheduler that replays prefix and then takes alternative 0 everywhere.
+//go:norace
 func NewSched(prefix []int) *Sched {
 	return &Sched{prefix: prefix, Horizon: 200000, finished: make(chan struct{}, 1), tdone: make(chan struct{}, 1), objIDs: map[any]int{}}
 }
 
 // Run executes body as thread 0 under the scheduler until a terminal state, then tears all
 // remaining threads down. It must be called from a goroutine that is not a scheduled thread.
+//go:norace
 func (s *Sched) Run(body func()) {
 	if Cur != nil {
 		panic("verifrt: nested Run")
@@ -169,17 +173,20 @@ func (s *Sched) Run(body func()) {
 	Cur = nil
 }
 
+//go:norace
 func (s *Sched) newThread(name string, body func()) *Thread {
 	t := &Thread{ID: len(s.threads), Name: name, wake: make(chan struct{}, 1), kind: OpStart, parked: true}
 	s.threads = append(s.threads, t)
 	s.live++
 	go func() {
+		raceHandoffOut()
 		<-t.wake
 		raceHandoffIn()
 		if s.teardown {
 			t.done = true
 			raceHandoffOut()
 			s.tdone <- struct{}{}
+			raceHandoffIn()
 			return
 		}
 		defer func() {
@@ -188,6 +195,7 @@ func (s *Sched) newThread(name string, body func()) *Thread {
 			if s.teardown {
 				raceHandoffOut()
 				s.tdone <- struct{}{}
+				raceHandoffIn()
 				return
 			}
 			if r != nil {
@@ -208,6 +216,7 @@ func (s *Sched) newThread(name string, body func()) *Thread {
 	return t
 }
 
+//go:norace
 func (s *Sched) finish() {
 	if s.ending {
 		return
@@ -215,9 +224,11 @@ func (s *Sched) finish() {
 	s.ending = true
 	raceHandoffOut()
 	s.finished <- struct{}{}
+	raceHandoffIn()
 }
 
 // Go spawns a scheduled thread (instrumented replacement of the go statement).
+//go:norace
 func Go(fn func()) {
 	s := Cur
 	if s == nil {
@@ -233,6 +244,7 @@ func Go(fn func()) {
 }
 
 // GoNamed is used by harness code.
+//go:norace
 func GoNamed(name string, fn func()) *Thread {
 	s := Cur
 	t := s.newThread(name, fn)
@@ -241,6 +253,7 @@ func GoNamed(name string, fn func()) *Thread {
 
 // AwaitQuiescence parks the calling (harness) thread until no other thread can take a step and
 // no timer is armed: every other thread is finished or blocked.
+//go:norace
 func AwaitQuiescence() {
 	if Cur == nil {
 		return
@@ -249,6 +262,7 @@ func AwaitQuiescence() {
 }
 
 // ThreadsState lists the unfinished threads with the kind of operation they are parked on.
+//go:norace
 func (s *Sched) ThreadsState() map[int]OpKind {
 	m := map[int]OpKind{}
 	for _, t := range s.threads {
@@ -260,6 +274,7 @@ func (s *Sched) ThreadsState() map[int]OpKind {
 }
 
 // Stop ends the execution from inside a thread (terminal state "stopped").
+//go:norace
 func Stop() {
 	s := Cur
 	s.stopReq = true
@@ -269,6 +284,7 @@ func Stop() {
 // Point is called by every shim operation before it acts. It returns when the calling thread
 // has been chosen to run and enabled() holds; the caller then performs its operation without
 // any other thread running in between.
+//go:norace
 func Point(kind OpKind, obj any, enabled func() bool) {
 	s := Cur
 	if s == nil {
@@ -309,10 +325,10 @@ func Point(kind OpKind, obj any, enabled func() bool) {
 		proceed()
 		return
 	}
+	raceHandoffOut()
 	if next != nil {
 		s.cur = next
 		next.parked = false
-		raceHandoffOut()
 		next.wake <- struct{}{}
 	}
 	<-t.wake
@@ -323,6 +339,7 @@ func Point(kind OpKind, obj any, enabled func() bool) {
 	proceed()
 }
 
+//go:norace
 func (s *Sched) exitThread(t *Thread) {
 	next := s.pick(nil)
 	if next != nil {
@@ -330,9 +347,11 @@ func (s *Sched) exitThread(t *Thread) {
 		next.parked = false
 		raceHandoffOut()
 		next.wake <- struct{}{}
+		raceHandoffIn()
 	}
 }
 
+//go:norace
 func (s *Sched) isEnabled(t *Thread) bool {
 	if t.done || !t.parked || t.kind == OpQuiesce {
 		return false
@@ -346,6 +365,7 @@ func (s *Sched) isEnabled(t *Thread) bool {
 	return t.enabled == nil || t.enabled()
 }
 
+//go:norace
 func (s *Sched) armedTimers() int {
 	n := 0
 	for _, tm := range s.timers {
@@ -356,6 +376,7 @@ func (s *Sched) armedTimers() int {
 	return n
 }
 
+//go:norace
 func (s *Sched) earliestTimer() *timerObj {
 	var best *timerObj
 	for _, tm := range s.timers {
@@ -372,6 +393,7 @@ func (s *Sched) earliestTimer() *timerObj {
 	return best
 }
 
+//go:norace
 func (s *Sched) fireTimer(tm *timerObj) {
 	if tm.deadline.After(now) {
 		now = tm.deadline
@@ -390,6 +412,7 @@ func (s *Sched) fireTimer(tm *timerObj) {
 
 // pick decides who runs next; cur is the thread that just parked (nil when it exited).
 // Returns nil when the execution is over (finish() has been called).
+//go:norace
 func (s *Sched) pick(cur *Thread) *Thread {
 	for {
 		if s.ending {
@@ -499,6 +522,7 @@ func (s *Sched) pick(cur *Thread) *Thread {
 }
 
 // decide takes the next choice from the prefix (or 0) and records it.
+//go:norace
 func (s *Sched) decide(n int) int {
 	k := len(s.Choices)
 	c := 0
@@ -516,6 +540,7 @@ func (s *Sched) decide(n int) int {
 }
 
 // Choose lets the running thread (or a shim) make an explicit n-way environment choice.
+//go:norace
 func Choose(n int, kind OpKind) int {
 	s := Cur
 	if s == nil || s.teardown || n <= 1 {
@@ -527,6 +552,7 @@ func Choose(n int, kind OpKind) int {
 		t := s.cur
 		t.parked = true
 		t.kind, t.enabled = OpYield, func() bool { return false }
+		raceHandoffOut()
 		<-t.wake
 		raceHandoffIn()
 		panic(killSentinel{})
@@ -536,6 +562,7 @@ func Choose(n int, kind OpKind) int {
 }
 
 // ObjID numbers shim objects in first-use order (deterministic under a deterministic schedule).
+//go:norace
 func ObjID(o any) int {
 	s := Cur
 	if s == nil {
@@ -550,6 +577,7 @@ func ObjID(o any) int {
 }
 
 // ThreadID returns the id of the running scheduled thread, -1 outside the scheduler.
+//go:norace
 func ThreadID() int {
 	if Cur == nil || Cur.cur == nil {
 		return -1
@@ -559,9 +587,12 @@ func ThreadID() int {
 
 // Parked reports which threads are not finished at the end of an execution, with the kind of
 // operation they are parked on.
+//go:norace
 func (s *Sched) Parked() map[int]OpKind { return s.parkedSnap }
 
+//go:norace
 func (s *Sched) ThreadDone(id int) bool { return id < len(s.threads) && s.threads[id].done }
+//go:norace
 func (s *Sched) NumThreads() int        { return len(s.threads) }
 
 // ---- virtual clock ------------------------------------------------------------------------
@@ -570,8 +601,11 @@ func (s *Sched) NumThreads() int        { return len(s.threads) }
 var Epoch = time.Date(2030, 1, 1, 0, 0, 0, 0, time.UTC)
 var now = Epoch
 
+//go:norace
 func Now() time.Time     { return now }
+//go:norace
 func SetNow(t time.Time) { now = t }
+//go:norace
 func Advance(d time.Duration) {
 	now = now.Add(d)
 	if s := Cur; s != nil {
@@ -580,6 +614,7 @@ func Advance(d time.Duration) {
 }
 
 // AddTimer registers a timer with the scheduler; fire runs on the scheduler side.
+//go:norace
 func AddTimer(d time.Duration, period time.Duration, fire func(now time.Time)) (stop func() bool, reset func(d time.Duration) bool) {
 	tm := &timerObj{deadline: now.Add(d), period: period, fire: fire, active: true}
 	if d > neverFire || d < 0 && false {
@@ -596,6 +631,7 @@ func AddTimer(d time.Duration, period time.Duration, fire func(now time.Time)) (
 
 // RandTick is called by the math/rand shim; a command that draws an unbounded number of random
 // numbers is looping forever.
+//go:norace
 func RandTick() {
 	s := Cur
 	if s == nil {
@@ -608,6 +644,7 @@ func RandTick() {
 }
 
 // Stack returns the stack of the calling goroutine trimmed to emulator frames.
+//go:norace
 func Stack() string {
 	buf := make([]byte, 16384)
 	n := runtime.Stack(buf, false)
@@ -621,9 +658,22 @@ func Stack() string {
 	return strings.Join(out, "\n")
 }
 
+//go:norace
 func (s *Sched) Teardown() bool { return s.teardown }
 
+// KillIfTornDown is called by waiting shims (Sleep): a thread that is being torn down and sits
+// in a retry loop (CAS + sleep) would spin forever once all shim operations are no-ops, so the
+// loop is broken by raising the tear-down panic again.
+//
+//go:norace
+func KillIfTornDown() {
+	if s := Cur; s != nil && s.teardown {
+		panic(killSentinel{})
+	}
+}
+
 // NoteWrite tells the scheduler that shared state changed without a scheduling point (Unlock).
+//go:norace
 func NoteWrite() {
 	if s := Cur; s != nil {
 		s.epoch++
